@@ -592,6 +592,22 @@ func runReprice(c *RepriceJS, cw *hlib.CaseWriter, rep *hlib.Report) {
 	}
 	got := map[int]bool{}
 	reverted, converted := 0, 0
+	// index of the last converted ETX, provided no pass-one-accepted conversion follows it in processing order
+	lastConverted := -1
+	for i, tx := range res {
+		if in, ok := orig[int(tx.ETXIndex())]; ok && in.Type == types.ConversionType && bi(in.Value).Sign() > 0 {
+			switch tx.EtxType() {
+			case types.ConversionType:
+				lastConverted = i
+			case types.ConversionRevertType:
+				// rejected by pass one (never reached pass two): adds nothing to the total; a revert that did
+				// reach pass two (its converted value rounded to zero) was part of the total
+				if i < len(out.EtxValuesBeforeConversion) && out.EtxValuesBeforeConversion[i] != nil {
+					lastConverted = -1
+				}
+			}
+		}
+	}
 	kinds := ""
 	for i, tx := range res {
 		id := int(tx.ETXIndex())
@@ -647,7 +663,14 @@ func runReprice(c *RepriceJS, cw *hlib.CaseWriter, rep *hlib.Report) {
 			// the sender's slippage bound against the amount that is finally converted (origin units)
 			after := new(big.Int).Div(new(big.Int).Mul(ov, new(big.Int).Sub(params.SlipAmountRange, slipOf(data))), params.SlipAmountRange)
 			if bf := out.EtxValuesBeforeConversion[i]; bf != nil && bf.Cmp(after) < 0 {
-				rep.Fail("reprice:final-value-below-sender-slip-bound"+fork, fmt.Sprintf("conversion %d of %s with slip bound %s/%s is converted from %s < %s and not reverted", id, ov, slipOf(data), params.SlipAmountRange, bf, after), c)
+				// For the LAST conversion accepted by pass one the cumulative amount it was tested against IS the
+				// final total, so pass-one value and final value coincide: there the bound must hold.  Only an
+				// earlier conversion can be dragged below its bound by later ones (recorded finding).
+				where := ""
+				if i == lastConverted {
+					where = ":last-accepted"
+				}
+				rep.Fail("reprice:final-value-below-sender-slip-bound"+where+fork, fmt.Sprintf("conversion %d of %s with slip bound %s/%s is converted from %s < %s and not reverted", id, ov, slipOf(data), params.SlipAmountRange, bf, after), c)
 			}
 		default:
 			rep.Fail("reprice:conversion-left-in-no-outcome", fmt.Sprintf("conversion %d left with type %d", id, tx.EtxType()), c)
